@@ -20,15 +20,15 @@ import (
 
 // Part is one harness of a property, explored exhaustively on its own.
 type Part struct {
-	Name     string
-	Desc     string
-	Body     nd.Body
-	MaxDev   int
-	CutDepth int           // depth at which the tree is cut for sharding (default 2)
-	ShardLevels int        // >0: deviation-level sharding (see nd.Options)
-	Workers  int           // worker processes (default 16; 1: in one process)
-	Budget   time.Duration // wall-clock cap; hitting it yields exhaustive:false, not a failure
-	Env      []string      // extra environment for workers
+	Name        string
+	Desc        string
+	Body        nd.Body
+	MaxDev      int
+	CutDepth    int           // depth at which the tree is cut for sharding (default 2)
+	ShardLevels int           // >0: deviation-level sharding (see nd.Options)
+	Workers     int           // worker processes (default 16; 1: in one process)
+	Budget      time.Duration // wall-clock cap; hitting it yields exhaustive:false, not a failure
+	Env         []string      // extra environment for workers
 	// CrashIsolate: the worker records the vector of the execution in progress,
 	// so that an unrecoverable crash of the worker process inside the library
 	// (a panic in a goroutine the library spawned, a runtime fatal error) is
@@ -157,6 +157,16 @@ func worker(id, tier, part string, i, n int, outdir string) int {
 	opt := nd.Options{MaxDev: pt.MaxDev, Shard: i, NShards: n, CutDepth: pt.CutDepth, ShardLevels: pt.ShardLevels}
 	if opt.CutDepth == 0 {
 		opt.CutDepth = 2
+	}
+	if opt.ShardLevels > 0 && n > 1 && os.Getenv("VERIF_STATIC_SHARDS") == "" {
+		// dynamic distribution of the shard jobs (see nd.Options.QueueDir)
+		opt.QueueDir = filepath.Join(outdir, part+".queue")
+		os.MkdirAll(opt.QueueDir, 0o755)
+		if opt.ShardLevels > 2 {
+			// the queue re-balances by itself (idle workers are handed subtrees),
+			// two levels of seeding are enough and keep the jobs coarse
+			opt.ShardLevels = 2
+		}
 	}
 	if d := os.Getenv("VERIF_DEADLINE"); d != "" {
 		ns, _ := strconv.ParseInt(d, 10, 64)
